@@ -220,6 +220,12 @@ func (w *Update) plantMarkers(v reflect.Value, seed uint64) {
 				if v.CanSet() {
 					k := markerKey(len(w.mark), seed)
 					v.FieldByName("PrivateKey").SetString(k)
+					// a third of the positions also name an SDS source (a context moved to SDS that still
+					// carries its inline key; status stays false, no SDS client is started)
+					if f := v.FieldByName("SdsConfig"); f.IsValid() && f.CanSet() && f.IsNil() && sim.Mix(seed^0x736473, uint64(len(w.mark)))%3 == 0 {
+						f.Set(reflect.ValueOf(&v2.SdsConfig{}))
+						w.Stats["tls_positions_with_sds_source"]++
+					}
 					w.mark = append(w.mark, k)
 				}
 				return
@@ -321,7 +327,7 @@ func (w *Update) Setup() error {
 	// exploration: an update may be held between building the new host set / balancer and publishing it,
 	// while requests keep arriving (the operations run on their own goroutines; MOSN is up by now)
 	if ch.Chance("params", "arm:x:cluster.update", 2, 3) {
-		s.Armed["x:cluster.update"] = true
+		s.Arm("x:cluster.update")
 	}
 	w.lisAddr = "127.0.0.1:2045"
 	w.epochs = append(w.epochs, uEpoch{0, 1 << 62, w.cloneModel()})
@@ -381,7 +387,7 @@ func (w *Update) nextOp() {
 	w.ops++
 	adapter := cluster.GetClusterMngAdapterInstance()
 	rm := router.GetRoutersMangerInstance()
-	kind := pickFrom(ch, "work", "op", []string{"router.full", "route.add", "route.removeall", "cluster.update", "cluster.updatehosts", "cluster.del", "hosts.update", "hosts.append", "hosts.del", "xds.endpoints", "dump", "dump", "listener.update", "listener.add", "listener.del", "xds.cluster.update", "xds.cluster.del", "xds.router", "listener.update.rejected", "invalid"})
+	kind := pickFrom(ch, "work", "op", []string{"router.full", "route.add", "route.removeall", "cluster.update", "cluster.updatehosts", "cluster.del", "hosts.update", "hosts.append", "hosts.del", "xds.endpoints", "dump", "dump", "listener.update", "listener.add", "listener.del", "xds.cluster.update", "xds.cluster.del", "xds.router", "listener.update.rejected", "route.add.invalid", "invalid"})
 	var run func()
 	desc := kind
 	m := &w.M
@@ -404,6 +410,17 @@ func (w *Update) nextOp() {
 			_ = rm.AddRoute(name, domain, &rt)
 		}
 		w.modelAddRoute(name, domain, &rt)
+	case "route.add.invalid":
+		// a route the table cannot build (its regex does not compile): refused, nothing may change — neither
+		// the live table nor the stored configuration
+		name := pickFrom(ch, "work", "rname", []string{"r0", "r1"})
+		domain := pickFrom(ch, "work", "domain", uDomains)
+		rt := v2.Router{}
+		rt.Match = v2.RouterMatch{Regex: "/(unclosed"}
+		rt.Route = v2.RouteAction{RouterActionConfig: v2.RouterActionConfig{ClusterName: pickFrom(ch, "work", "rcluster", uClusters)}}
+		desc += fmt.Sprintf(" %s %s", name, domain)
+		run = func() { _ = rm.AddRoute(name, domain, &rt) }
+		w.Stats["invalid_route_adds"]++
 	case "route.removeall":
 		name := pickFrom(ch, "work", "rname", []string{"r0", "r1", "nosuch"})
 		domain := pickFrom(ch, "work", "domain", append(append([]string{}, uDomains...), "zzz.test"))
